@@ -6,7 +6,7 @@ EXTENDS Cleaner, Json
 SetToSeq(S) == LET RECURSIVE F(_) F(T) == IF T = {} THEN <<>> ELSE LET x == CHOOSE y \in T : TRUE IN <<x>> \o F(T \ {x})
                IN F(S)
 CfOut(c) == [obf |-> c.obf, host |-> c.host, mac |-> c.mac, v6 |-> c.v6, kws |-> SetToSeq(c.kws), pats |-> SetToSeq(c.pats),
-             regex |-> c.regex, sysdom |-> c.sysdom, fam |-> c.fam]
+             regex |-> c.regex, sysdom |-> c.sysdom, fam |-> c.fam, nofqdn |-> c.nofqdn, dname |-> c.dname]
 SpOut(sp) == [nored |-> sp.nored, noobf |-> SetToSeq(sp.noobf), width |-> sp.width, allow |-> sp.allow, nak |-> NAk]
 Emit ==
     Terminal =>
